@@ -13,10 +13,11 @@ Next == UNCHANGED <<form, k>>
 Spec == Init /\ [][Next]_<<form, k>>
 
 \* the generated code computes what the property says, for every input
-Agree == \A q \in 1..Len(InSeq) : FormM(form, AltBytes(k), InSeq[q]) = FormR(form, AltBytes(k), InSeq[q])
+\* (the literal decoding AltBytes(k) is bound once per state: TLC caches a LET value, not an operator application)
+Agree == LET ab == AltBytes(k) IN \A q \in 1..Len(InSeq) : FormM(form, ab, InSeq[q]) = FormR(form, ab, InSeq[q])
 
 Line == [m |-> "ParserMethod", form |-> form, k |-> k,
-         exp |-> [q \in 1..Len(InSeq) |-> LET r == FormR(form, AltBytes(k), InSeq[q]) IN <<r.b, r.lo, r.hi>>]]
+         exp |-> LET ab == AltBytes(k) IN [q \in 1..Len(InSeq) |-> LET r == FormR(form, ab, InSeq[q]) IN <<r.b, r.lo, r.hi>>]]
 EmitInv == Serialize(ToJson(Line) \o "\n", IOEnv.OUT,
                      [format |-> "TXT", charset |-> "UTF-8", openOptions |-> <<"WRITE", "CREATE", "APPEND">>]).exitValue = 0
 \* header: the inputs (in order) and the decoded bytes of every literal
